@@ -209,6 +209,12 @@ def run(ctx) -> Result:
         "strings-8-0": [[{"0", "8"}], [{"a b"}]],
         "strings-ab": [[{"8", "0"}], [{"ab"}]],
         "strings-a-b": [[{"0", "8"}], [{"a b"}]],
+        # different datasets in which every element occupies the same positions overall (a comparison of per-element
+        # position multisets, or of independently sorted rows / columns, cannot tell them apart)
+        "latin-a": [[{1}, {2}, {3}, {4}], [{2}, {1}, {4}, {3}]],
+        "latin-b": [[{1}, {2}, {4}, {3}], [{2}, {1}, {3}, {4}]],
+        "square-a": [[{1}, {2}, {3}], [{2}, {3}, {1}], [{3}, {1}, {2}]],
+        "square-b": [[{1}, {3}, {2}], [{3}, {2}, {1}], [{2}, {1}, {3}]],
         "with-empty": [[{1}], [], [{1}]],
         "with-empty-permuted": [[], [{1}], [{1}]],
         "with-two-empties": [[], [{1}], []],
